@@ -325,6 +325,18 @@ func oddities(opt func(string) core.Options) {
 		seen = append(seen, uint64(r.Receipts[0].Status), na.LedgerNonce(adm.Addr))
 	}
 	out("odd.executor-ignores-nonce", map[string]interface{}{"status_and_ledger_nonce_after_nonce_100_then_0": seen})
+
+	// (e) ExecBlockAt(number <= height) drives the executor's rollback path (handle.go rollbackBlocks).
+	hb := na.Height()
+	oldHash, _ := na.BlockHash(hb)
+	rr, err := na.ExecBlockAt(hb, []pb.Transaction{na.TransferTx(na.Admins()[2], acc.Addr, "5")}, nil, 0)
+	must("odd rollback", err)
+	out("odd.rollback-via-ExecBlockAt", map[string]interface{}{"height_before": hb, "height_after": na.Height(), "old_hash": oldHash.String(),
+		"new_hash": rr.Block.BlockHash.String(), "receipt": rr.Receipts[0].Status.String(), "event_meta_present": rr.EventMeta != nil,
+		"ledger_nonce_admin1_after_rollback": na.LedgerNonce(adm.Addr)})
+	next, err := na.ExecBlock(nil, nil, 0)
+	must("odd after rollback", err)
+	out("odd.after-rollback", map[string]interface{}{"height": next.Block.BlockHeader.Number, "parent_ok": next.Block.BlockHeader.ParentHash.String() == rr.Block.BlockHash.String()})
 	na.Close()
 	nb.Close()
 	nc.Close()
